@@ -1,6 +1,6 @@
 """Configuration of ./check for C05 (see tools/props.py)."""
 ENTRY = {'coq_dir': 'C05',
- 'coq_deps': ['Mgr'],
+ 'coq_deps': ['Mgr', 'C10'],
  'model_files': ['Glue'],
  'harness': 'c05',
  'cases': {'quick': 1500, 'thorough': 40000},
@@ -9,9 +9,11 @@ ENTRY = {'coq_dir': 'C05',
          'transport: dial requests by peer and by address, address additions, open/negotiate outcomes, inbound connections (ids drawn from '
          'the shared counter), accept futures, closures, limit configurations from {none,0,1,2,3}; 85% follow the transport contract and '
          'end with a settle phase (all owed answers delivered, every peer re-dialled), 15% add infeasible noise (unknown ids, failing '
-         'transport calls, failing accepts). After every event the transport calls, protocol notifications, manager events, return code '
-         'and a dump of peer states / pending / counted sets are compared with the extracted Coq model. Non-trivial: trace >= 8 numbers; '
-         'distinct (case, trace) pairs are counted.',
+         'transport calls, failing accepts). 9% of the events are dial_address calls with arbitrary multiaddress shapes from the C10 '
+         "grammar (accepted shapes, missing /p2p, components after the peer id, wrong first/second component, ws/quic shapes, the node's "
+         'own listen address). After every event the transport calls, protocol notifications, manager events, return code and a dump of '
+         'peer states / pending / counted sets are compared with the extracted Coq model. Non-trivial: trace >= 8 numbers; distinct (case, '
+         'trace) pairs are counted.',
  'level_text': 'Proof: the dial ledger is an inductive invariant (LInv) of the manager model over every event history the transport '
                "contract allows and every limit configuration: every pending attempt is owed an answer by the transport and is its peer's "
                'dial record, ids are fresh, terminal outputs close an attempt for good; consequences proved for all feasible histories: no '
